@@ -95,6 +95,12 @@ theorem accepted_status_range (cfg : Cfg) {x : Bytes} (hx : x ≠ [])
   · rw [h1]; simp [gatewayed, scOkay]
   · rw [hst]; exact SquidModel.Http1Resp.StatusLine.status_range hsl
 
+/-- No false rejects: as long as what has been received can still be completed to an input starting with a status line,
+the parser never reports a syntax error (it waits or has already accepted). -/
+theorem viable_prefix_never_rejected (cfg : Cfg) {line : Bytes} {f : Fields} (h : StatusLine cfg.relaxed line f)
+    (x b rest : Bytes) (hxb : x ++ b = line ++ rest) : (oneShot cfg x).st.parseStatus ≠ scInvalidHeader :=
+  viable_prefix_not_rejected h x b rest hxb
+
 /-- `ParseResponseStatus` alone: success means one to three digits with a value in 100..599 — hence exactly three —
 followed by one delimiter; the value is returned and exactly these four octets are consumed. -/
 theorem parse_response_status_ok (cfg : Cfg) {tok rest : Bytes} {c code : Nat}
